@@ -10,6 +10,15 @@ PLAIN_CLASSES = {
         ("_active_run_ids", "set[str]"),
         ("_decorated", "opaque:Runtime"),
     ],
+    "_IdleReleaseInternalRunAdapter": [
+        ("_decorated", "opaque:InternalRunAdapter"),
+        ("_runtime", "opaque:IdleRuntime"),  # the IdleReleaseDecorator, seen from the adapter: two calls are made on it
+        ("_store", "opaque:AbstractWorkflowStore"),
+    ],
+}
+
+OPAQUE_ATTRS = {
+    ("InternalRunAdapter", "run_id"): "str",
 }
 
 FIELD_TYPES = {
@@ -21,6 +30,10 @@ OPAQUE_METHODS = {
     # one read of the store inside the section (the reload lock of the run is held): a snapshot of the handler rows
     ("AbstractWorkflowStore", "query"): dict(ret="list[PersistentHandler]", pure=True),
     ("timedelta", "total_seconds"): dict(ret="float", pure=True),
+    ("AbstractWorkflowStore", "update_handler_status"): dict(ret="None", pure=False, log=True),
+    ("InternalRunAdapter", "write_to_event_stream"): dict(ret="None", pure=False, log=True),
+    ("IdleRuntime", "_spawn_task"): dict(ret="opaque:Task", pure=False, log=True),
+    ("IdleRuntime", "_deferred_release"): dict(ret="opaque:Coroutine", pure=True),
 }
 
 MODULE_FNS = {
@@ -85,3 +98,37 @@ class ReleaseIdleHandler:
             and run_id in old.self._active_run_ids
         )
         return (not due) or not (run_id in self._active_run_ids)
+
+
+@contract("llama_agents.server._runtime.idle_release_runtime._IdleReleaseInternalRunAdapter.write_to_event_stream")
+class IdleMark:
+    properties = ["C36", "C14"]
+    raises = ["*user"]
+
+    def requires(self, event):
+        return True
+
+    def ensures_idle_is_stamped_every_time(old, self, event, result):
+        # C36 / C14: EVERY idle announcement of the run stamps the handler row with the current time (an old stamp from
+        # an earlier idle period would make the next release fire too early), before the event is forwarded, and arms
+        # one deferred release for this run; any other event is only forwarded
+        idle = isinstance(event, WorkflowIdleEvent)
+        n = calls(self._store, "update_handler_status")
+        return (
+            n == (1 if idle else 0)
+            and (
+                n == 0
+                or (
+                    call_pos(self._store, "update_handler_status", 0, 0) == self._decorated.run_id
+                    and call_kw(self._store, "update_handler_status", 0, "status") == "running"
+                    and same(call_kw(self._store, "update_handler_status", 0, "idle_since"), datetime.now(timezone.utc))
+                )
+            )
+            and calls(self._decorated, "write_to_event_stream") == 1
+            and same(call_pos(self._decorated, "write_to_event_stream", 0, 0), event)
+            and calls(self._runtime, "_spawn_task") == (1 if idle else 0)
+            and (
+                (not idle)
+                or same(call_pos(self._runtime, "_spawn_task", 0, 0), self._runtime._deferred_release(self._decorated.run_id))
+            )
+        )
